@@ -1,7 +1,6 @@
 package main
 
 import (
-	"strings"
 	"bufio"
 	"bytes"
 	"encoding/base64"
@@ -13,6 +12,7 @@ import (
 	"os/exec"
 	"path/filepath"
 	"strconv"
+	"strings"
 
 	"verifharness/gen"
 	"verifharness/run"
@@ -45,7 +45,7 @@ type pyMd struct {
 }
 type pyStats struct {
 	Msgs, Schemas, Channels, Atts, Mds, Chunks, Start, End string
-	Per                                                  [][2]string
+	Per                                                    [][2]string
 }
 type pyRead struct {
 	Via, Order, End, Why string
